@@ -590,7 +590,7 @@ func (x *Exec) step(st *State, ins ssa.Instruction) {
 			at := under(t).(*types.Array)
 			if isScalar(at.Elem()) {
 				mk := x.memKey(at.Elem())
-				x.hset(st, mk, store(x.hget(st.H, mk), r, x.zeroVal(t).(AV).A))
+				x.hsetMem(st, mk, r, "", x.zeroVal(t).(AV).A)
 			} else {
 				x.assumeZeroElems(st, at.Elem(), r)
 			}
@@ -1017,7 +1017,7 @@ func (x *Exec) convert(st *State, ins ssa.Instruction, v Val, from, to types.Typ
 		arr := x.reg.fresh("bytesOf")
 		x.reg.declare(arr, "(Array Int Int)")
 		st.assume(fmt.Sprintf("(forall ((j Int)) (! (=> (and (<= 0 j) (< j (strlen %s))) (= (select %s j) (strat %s j))) :pattern ((select %s j))))", s, arr, s, arr))
-		x.hset(st, mk, store(x.hget(st.H, mk), b, arr))
+		x.hsetMem(st, mk, b, "", arr)
 		return SL{b, "0", "(strlen " + s + ")", "(strlen " + s + ")", to}
 	case isSlice(from) && isString(to): // string(bytes)
 		x.useStr()
@@ -1047,6 +1047,9 @@ func (x *Exec) makeIface(st *State, v Val, from, to types.Type) Val {
 	case TV:
 		return TV{"(mkiface " + tid + " " + x.boxScalar(u, from) + ")", to}
 	case SV:
+		if len(u.F) == 0 {
+			return TV{"(mkiface " + tid + " 0)", to} // zero-size struct: interface equality is by value
+		}
 		r := x.newObj(st, "box")
 		x.storeStruct(st, from, r, u)
 		return TV{"(mkiface " + tid + " " + r + ")", to}
@@ -1153,12 +1156,12 @@ func (x *Exec) zeroBacking(st *State, elem types.Type, b string) {
 		base := "M%" + typeKey(elem)
 		for _, p := range []string{"#b", "#o", "#l", "#c"} {
 			x.regKey(base+p, "(Array Int (Array Int Int))")
-			x.hset(st, base+p, store(x.hget(st.H, base+p), b, "((as const (Array Int Int)) 0)"))
+			x.hsetMem(st, base+p, b, "", "((as const (Array Int Int)) 0)")
 		}
 	default:
 		mk := x.memKey(elem)
 		z := x.scalar(x.zeroVal(elem))
-		x.hset(st, mk, store(x.hget(st.H, mk), b, "((as const (Array Int "+sortOf(elem)+")) "+z+")"))
+		x.hsetMem(st, mk, b, "", "((as const (Array Int "+sortOf(elem)+")) "+z+")")
 	}
 }
 
